@@ -46,6 +46,9 @@ def domain_exclusion(spec: dict, dtype: str, J: np.ndarray):
     if name in ("UPGrad", "DualProj", "CAGrad"):
         if s < 2 * spec.get("norm_eps", 1e-4):
             return "below-2-norm_eps"
+    if name == "IMTLG" and imtlg_balance(J) < 1e-3:
+        # the weights are v / sum(v): when sum(v) nearly cancels they are huge and ill-conditioned (same rule as C17)
+        return "imtlg-weights-sum-near-zero"
     if name == "CAGrad" and s > 0 and m <= 10:
         # CAGrad switches to the zero vector when its worst-case direction g_w is shorter than norm_eps (relative to
         # s): a discontinuity. The decision is ambiguous when the min-norm point of the hull is within a decade of
@@ -69,6 +72,19 @@ def domain_exclusion(spec: dict, dtype: str, J: np.ndarray):
     return None
 
 
+def imtlg_balance(J: np.ndarray) -> float:
+    """|sum v| / sum |v| for IMTL-G's un-normalised weights v = pinv(J J^T) (row norms), on the non-zero rows."""
+    nz = J[np.any(J != 0, axis=1)]
+    if nz.shape[0] == 0:
+        return 1.0
+    try:
+        v = np.linalg.lstsq(nz @ nz.T, np.linalg.norm(nz, axis=1), rcond=None)[0]
+    except np.linalg.LinAlgError:
+        return 0.0
+    den = float(np.abs(v).sum())
+    return abs(float(v.sum())) / den if den > 0 else 1.0
+
+
 def base_tolerance(spec: dict, dtype: str, J: np.ndarray, w_norm: float, x_norm: float) -> float:
     """Tolerance on |A(J) - A(J')| for two mathematically equivalent runs, absolute, scale-relative."""
     name = spec["name"]
@@ -84,7 +100,8 @@ def base_tolerance(spec: dict, dtype: str, J: np.ndarray, w_norm: float, x_norm:
         return TAU_CONIC[dtype] * s * w + K * (m + n) * eps * s * w + 1e-300
     if name in RANK_BASED:
         c = cond_full_row_rank(J) or 1.0
-        return K * (m + n) * eps * c**2 * max(x_norm, s) + 1e-300
+        amp = 1.0 / max(imtlg_balance(J), 1e-3) if name == "IMTLG" else 1.0
+        return K * (m + n) * eps * c**2 * amp * max(x_norm, s) + 1e-300
     return K * (m + n) * eps * s * w + 1e-300
 
 
